@@ -98,4 +98,17 @@ def choiceProblem (s : Lsm) (cd : CompactDef) : Option String :=
 
 def validChoice (s : Lsm) (cd : CompactDef) : Bool := (choiceProblem s cd).isNone
 
+/-- `addKeys` starts a new output table only when the user key changes: on a level ≥ 1 no user key
+    may be spread over two of the tables a compaction produced (hypothesis `CutsAtKeyChange` of
+    `C14_compact_inv`). Returns the first key found on both sides of a cut. -/
+def cutProblem (sizes : List Nat) (out : List Ent) : Option Bytes :=
+  match sizes with
+  | [] => none
+  | n :: rest =>
+    let a := out.take n
+    let b := out.drop n
+    match a.getLast?, b.head? with
+    | some x, some y => if rest.isEmpty then none else if x.key == y.key then some x.key else cutProblem rest b
+    | _, _ => none
+
 end Badger
